@@ -5,6 +5,7 @@ import instr_corr
 def explore(run, lean):
     instr_corr.explore(run, "C21", 400 if run.tier == "quick" else 8000)
     instr_corr.long_history_probe(run, "C21", 560 if run.tier == "quick" else 1700)
+    instr_corr.live_callback_probe(run, "C21", 20 if run.tier == "quick" else 500)
     run.extra["rule"] = ("random spied charts (<=7 states) on an instrumented HsmWithQueues whose handlers post/defer/recall/scribble; "
                          "scripts of start_at + 2-12 client ops (posts, defer, recall, next_rtc), some with a post before start_at; "
                          "ring sizes real (250/500/500) or reduced (full spy 20-120, trace 2-5); scripted clocks (fine, coarse, "
@@ -13,6 +14,8 @@ def explore(run, lean):
                          "plus two histories longer than the 500-entry rings (560 / 1700 steps, real ring sizes): compared with the model, "
                          "one live trace line per transition step")
     run.assumptions.append("at most rtcCap (250) handler calls per step; beyond that see the known findings")
+    ROUND8_RULE = '; live spy / trace callbacks replaced while output is being produced (round 8)'
+    run.extra["rule"] = run.extra.get("rule", "") + ROUND8_RULE
 
 
 def replay(case):
